@@ -38,6 +38,14 @@ pub fn gen_state(rng: &mut Rng, m128: bool) -> SnapState {
     s.port_7ffd = if m128 { rng.u8() & 0x3F } else { 0 };
     s.border = rng.u8() & 7;
     rng.fill(&mut s.ay_regs);
+    // an envelope shape register holding 0xFF (a value some register-dump formats use as "not written"; for the
+    // chip it is shape 15) with a channel that follows the envelope and is audible
+    if rng.chance(1, 6) {
+        s.ay_regs[13] = 0xFF;
+        s.ay_regs[8] = 0x10 | (s.ay_regs[8] & 0x0F);
+        s.ay_regs[7] |= 0x09;
+        s.ay_regs[12] &= 0x03;
+    }
     s.ay_sel = rng.u8() & 0x0F;
     // interrupt set-up that keeps the program idle: IM 0/1 -> ROM handler, IM 2 -> table in bank 2
     if s.cpu.im == 2 {
